@@ -182,6 +182,9 @@ pub fn run(ctx: &Ctx) -> i32 {
     if !canary {
         acc.inconclusive.push("token walker canary failed".into());
     }
+    if !ctx.quick() {
+        acc.miri(40, 60);
+    }
     acc.finish(
         "exploration",
         "texts: all token sequences of length <=3 over the 51-kind alphabet and <=5 (thorough 6) over a 12-kind alphabet behind three statement prefixes (exhaustive), 18 nesting families to depth 200, generated/mutated/corpus programs, arbitrary Unicode; per text: token tiling, token values vs slices, re-lexing of slices, tree leaves vs non-trivia tokens, node spans vs hull of leaves, syntax error spans; plus compiler error spans of the exploration workload; non-trivial = >=3 tokens and (multi-byte or lexical error or tree); distinct by text hash",
